@@ -36,6 +36,20 @@ def fill_receivers(repo, cls, f):
         elif isinstance(n, (ast.ListComp, ast.GeneratorExp, ast.SetComp, ast.DictComp)):
             gens += [(g.target, g.iter) for g in n.generators]
         elif isinstance(n, ast.Assign) and len(n.targets) == 1:
+            v = n.value
+            if isinstance(v, ast.Call) and isinstance(v.func, ast.Attribute) and v.func.attr in ("copy", "zero"):
+                # a fresh child made from a template: it belongs to the slot it is stored into
+                if isinstance(n.targets[0], ast.Name):
+                    fresh = n.targets[0].id
+                    for st in walk_local_stmt(f.node):
+                        if isinstance(st, ast.Assign) and isinstance(st.value, ast.Name) and st.value.id == fresh:
+                            for t in st.targets:
+                                base = t
+                                while isinstance(base, ast.Subscript):
+                                    base = base.value
+                                if isinstance(base, ast.Attribute) and isinstance(base.value, ast.Name) and base.value.id == selfname:
+                                    var_src.setdefault(fresh, set()).add(base.attr)
+                continue
             gens.append((n.targets[0], n.value))
         for tgt, it in gens:
             attrs = {a.attr for a in ast.walk(it) if isinstance(a, ast.Attribute) and isinstance(a.value, ast.Name)
